@@ -1,6 +1,6 @@
 (* C03 - program evaluation is total and bounded; only stack overflow aborts it. *)
 From Coq Require Import List ZArith NArith Floats Bool.
-From UEC Require Import Base.I64 Base.Iter Push.Stack Push.Syntax Push.Spec Push.SpecProps Push.Run Push.RunProps.
+From UEC Require Import Base.I64 Base.Iter Push.Stack Push.Syntax Push.Spec Push.SpecProps Push.Run Push.RunProps Push.RunRefine.
 Import ListNotations.
 
 (* totality: [run] is a Gallina function (structural recursion on the binary step
@@ -63,6 +63,14 @@ Print Assumptions C03_panic_iff_unbound.
 Theorem C03_no_panic : forall prec s, inputs_bound s -> run prec s <> Panicked.
 Proof. exact run_no_panic. Qed.
 Print Assumptions C03_no_panic.
+
+(* the same guarantees for the interpreter over the code AS IT IS COMPOSED (the Impl layer: pops followed by
+   pushes, pre-checks, discards), through the refinement C01_run *)
+Theorem C03_composed_code : forall s, wf s ->
+  rs_wf (irun s) /\ (steps_of (irun s) <= max_steps s)%N /\ fails_only_overflow (irun s) /\
+  (inputs_bound s -> irun s <> Panicked).
+Proof. exact (fun s W => conj (irun_wf s W) (conj (irun_steps s W) (conj (irun_fails_only_overflow s W) (irun_no_panic s W)))). Qed.
+Print Assumptions C03_composed_code.
 
 (* non-vacuity: a self-replicating program hits the step limit; one that
    keeps producing data ends with a stack overflowing; capacity 0 is a state like any other *)
